@@ -6,7 +6,9 @@ package main
 import (
 	"fmt"
 
+	"github.com/virel-project/go-randomvirel"
 	"github.com/virel-project/virel-blockchain/v3/address"
+	"github.com/virel-project/virel-blockchain/v3/block"
 	"github.com/virel-project/virel-blockchain/v3/config"
 	"github.com/virel-project/virel-blockchain/v3/transaction"
 	"github.com/virel-project/virel-blockchain/v3/util"
@@ -345,6 +347,48 @@ func (c *c9) twin(s *TNode) *TNode {
 	n.Raw = c.w.serializeFull(&bl, nil)
 	c.w.ids.H(n.Hash)
 	return n
+}
+
+// twinTs: the same block with another timestamp (same base hash, nonce and extra nonce: a duplicate for the
+// three-field test of PrevalidateBlock and of the template builder, but not for Commitment.Equals) whose proof of work
+// still holds; nil when no nearby timestamp gives a valid proof of work under the same nonce
+func (c *c9) twinTs(s *TNode) *TNode {
+	for d := uint64(1); d < 400; d++ {
+		bl := *s.Block
+		bl.Timestamp += d
+		if block.GetSeedhashId(bl.Timestamp) != block.GetSeedhashId(s.Block.Timestamp) {
+			return nil
+		}
+		mb := bl.Commitment().MiningBlob()
+		h := randomvirel.PowHash(mb.GetSeed(), mb.Serialize())
+		if !block.ValidPowHash32(h, bl.Difficulty) {
+			continue
+		}
+		n := &TNode{Block: &bl, Parent: s.Parent, Pow: powVal(h), SidePow: s.SidePow, Note: "twin-ts"}
+		n.Hash = bl.Hash()
+		n.Raw = c.w.serializeFull(&bl, nil)
+		c.w.ids.H(n.Hash)
+		return n
+	}
+	return nil
+}
+
+// ---- two tips that differ in the timestamp only
+func scenTwinTsSideBlocks(c *c9) {
+	w := c.w.wallets
+	c.grow(5, 0)
+	top := c.top()
+	s := c.buildOn(top.Parent, nil, nil, 0, w[1].Addr)
+	c.addBuilt(s)
+	if t := c.twinTs(s); t != nil {
+		c.addBuilt(t)
+	} else {
+		c.stats["twin-ts-not-found"]++
+	}
+	if !c.mine(w[0]) {
+		c.mine(w[0])
+	}
+	c.mine(w[0])
 }
 
 // ---- two tips with equal commitments
